@@ -11,6 +11,7 @@
   `sort` is a relation (`SortSpec`), not a function.  Core Lean only.
 -/
 import GoluaVerif.Spec.StrLib
+import GoluaVerif.Spec.Num
 namespace GoluaVerif.Spec.TabLib
 open GoluaVerif.Spec.StrLib (Bytes)
 
@@ -19,6 +20,7 @@ inductive Val where
   | nil
   | bool (b : Bool)
   | int (i : Int)
+  | flt (bits : BitVec 64)     -- a float, by its IEEE bit pattern
   | str (s : Bytes)
   | other (tag : Nat)
   deriving DecidableEq, Repr, Inhabited
@@ -222,6 +224,65 @@ def isSWOOn (lt : α → α → Bool) (l : List α) : Bool :=
   l.all (fun a => !lt a a) &&
   l.all (fun a => l.all fun b => l.all fun c => !(lt a b && lt b c) || lt a c) &&
   l.all (fun a => l.all fun b => l.all fun c => (lt a b || lt b c) || !lt a c)
+
+/-! ### Lua's order on values (manual §3.4.4): numbers by mathematical value (integers and floats
+     compared exactly, `Spec.Num`), strings bytewise (C locale), anything else raises -/
+
+def Val.num? : Val → Option Num
+  | .int i => some (.int (BitVec.ofInt 64 i))
+  | .flt b => some (.flt (F64.decode b))
+  | _ => none
+
+/-- bytewise lexicographic `<` (a proper prefix is smaller; `strcoll` in the C locale with embedded zeros) -/
+def bytesLt : Bytes → Bytes → Bool
+  | [], [] => false
+  | [], _ :: _ => true
+  | _ :: _, [] => false
+  | a :: as, b :: bs => if a < b then true else if b < a then false else bytesLt as bs
+
+/-- `a < b`; `none` = "attempt to compare …" -/
+def luaLt (a b : Val) : Option Bool :=
+  match a.num?, b.num? with
+  | some x, some y => some (Num.lt x y)
+  | _, _ => match a, b with
+    | .str s, .str t => some (bytesLt s t)
+    | _, _ => none
+
+/-- Lua's `<` as a total Boolean function (a raising comparison counted as `false`) -/
+def ltD (a b : Val) : Bool := (luaLt a b).getD false
+
+/-- `a <= b` -/
+def luaLe (a b : Val) : Option Bool :=
+  match a.num?, b.num? with
+  | some x, some y => some (Num.le x y)
+  | _, _ => match a, b with
+    | .str s, .str t => some (!bytesLt t s)
+    | _, _ => none
+
+/-- `a == b` (never raises; 1 == 1.0) -/
+def luaEq (a b : Val) : Bool :=
+  match a.num?, b.num? with
+  | some x, some y => Num.eq x y
+  | _, _ => a == b
+
+/-- the comparison functions of the harness on arbitrary values: `lt gt le ge ne true false` are Lua's
+    operators; `mod3` and `abs` are defined on integers only -/
+def namedCmp (name : String) : Option (Val → Val → Option Bool) :=
+  match name with
+  | "lt" => some luaLt
+  | "gt" => some fun a b => luaLt b a
+  | "le" => some luaLe
+  | "ge" => some fun a b => luaLe b a
+  | "ne" => some fun a b => some (!luaEq a b)
+  | "true" => some fun _ _ => some true
+  | "false" => some fun _ _ => some false
+  | "mod3" => some fun a b => match a, b with
+    | .int x, .int y => some (decide (x % 3 < y % 3))
+    | _, _ => none
+  | "abs" => some fun a b => match a, b with
+    | .int x, .int y => some (decide (x.natAbs < y.natAbs))
+    | _, _ => none
+  | _ => none
 
 /-- the comparison functions the correspondence harness passes to `table.sort`, by name -/
 def namedLt (name : String) : Option (Int → Int → Bool) :=
